@@ -117,8 +117,8 @@ M("c19-freq-last", "C19", "C19/ORDER",
 M("c19-bymonth-vint", "C19", "C19/TYPES", (PR, "'BYMONTH': vMonth,", "'BYMONTH': vInt,"))
 M("c19-until-vint", "C19", "C19/TYPES", (PR, "'UNTIL': vDDDTypes,", "'UNTIL': vText,"))
 M("c19-join-semicolon", "C19", "C19/RECUR-MODEL",
-  (PR, "vals = b','.join(typ(val).to_ical() for val in vals)",
-       "vals = b';'.join(typ(val).to_ical() for val in vals)"))
+  (PR, "vals = b','.join(from_unicode(typ(val).to_ical()) for val in vals)",
+       "vals = b';'.join(from_unicode(typ(val).to_ical()) for val in vals)"))
 M("c19-reader-default-differs", "C19", "C19/RECUR-MODEL",
   (PR, "parser = cls.types.get(key, vText)", "parser = cls.types.get(key, vInt)"))
 M("c19-insertion-order", "C19", "C19/RECUR-MODEL",
